@@ -1,4 +1,5 @@
 import I18n.Lemmas.DateTags
+import I18n.Lemmas.DateRe
 /-
 Property C18 — date fields are normalised canonically and judged by the real calendar.
 
@@ -8,15 +9,16 @@ Specification: `I18n.Spec.Date` (`Written` = the declarative grammar, `Canonical
 Gregorian calendar by counting, `HasBoilerplate`, `Stripped`, `Normalises`).
 -/
 namespace I18n.Props.C18
-open I18n I18n.Date I18n.Spec.Date I18n.Generated
+open I18n I18n.Date I18n.Spec.Date I18n.Spec.DateRe I18n.Generated
 
 /-! ### pins -/
 
-/-- the scanners `parseDate` / `hasBoilerplate` were written against these regex texts, flags and methods -/
+/-- the `sre_parse` trees dumped from the live module are the expected ones (in named parts: `dateRe`, `boilRe`), the
+    flags are `re.VERBOSE | re.UNICODE` (no IGNORECASE / ASCII, which would change the meaning of the same tree), and the
+    bound methods are `match` / `search` -/
 theorem regex_pin :
-    DateTables.parseDateRegex = pinnedParseDateRegex ∧ DateTables.parseDateFlags = pinnedFlags
-    ∧ DateTables.parseDateMethod = "match"
-    ∧ DateTables.boilerplateRegex = pinnedBoilerplateRegex ∧ DateTables.boilerplateFlags = pinnedFlags
+    DateTables.parseDateRe = dateRe ∧ DateTables.parseDateFlags = pinnedFlags ∧ DateTables.parseDateMethod = "match"
+    ∧ DateTables.boilerplateRe = boilRe ∧ DateTables.boilerplateFlags = pinnedFlags
     ∧ DateTables.boilerplateMethod = "search" := ⟨rfl, rfl, rfl, rfl, rfl, rfl⟩
 
 /-- `gettext.epoch` is 1995-07-02T00:00Z, and `gettext.boilerplate_date` is xgettext's placeholder -/
@@ -27,6 +29,59 @@ theorem epoch_pin : DateTables.epochMicros = gettextEpoch.minutes * 60000000
     twice, and every offset has the form `±HHMM` -/
 theorem table_pin : DateTables.timezones.all entryOk = true ∧ keysDistinct DateTables.timezones = true :=
   ⟨table_ok, table_distinct⟩
+
+/-! ### the regexes mean the specification -/
+
+/-- what `strip()` returns does not end in white space -/
+theorem strip_last (s : List Char) : ∀ c, (strip s).getLast? = some c → ¬ White c := by
+  obtain ⟨_, _, _, _, _, _, h⟩ := strip_spec s
+  exact h
+
+/-- **parse_date_regex**: the `sre_parse` tree of `_parse_date`, dumped from the live module, derives — on a string that
+    does not end in white space — exactly the strings of the grammar `Written`, and every derivation captures the written
+    date, time and zone (groups 1, 2 and 3+4 or 5): whichever derivation Python's backtracking finds, the groups are these -/
+theorem parse_date_regex {s : List Char} (hlast : ∀ c, s.getLast? = some c → ¬ White c) (caps : Caps) :
+    Match White DateTables.parseDateRe s caps ↔ ∃ d t z, Written s d t z ∧ caps = dateCaps d t z := by
+  rw [parseDateRe_eq]; exact match_dateRe_stripped hlast caps
+
+/-- the model's scanner is that regex: on `strip s` it matches iff the regex does, with the regex's groups -/
+theorem parseDate_is_regex (s : List Char) (g : Groups) :
+    parseDate (strip s) = some g ↔
+      (Match White DateTables.parseDateRe (strip s) (dateCaps g.date g.time g.zone.spec)
+        ∧ g.zone = zoneOfSpec g.zone.spec) := by
+  rw [parse_date_regex (strip_last s)]
+  constructor
+  · intro h
+    have hw := parseDate_sound h
+    refine ⟨⟨_, _, _, hw, rfl⟩, ?_⟩
+    have := (parseDate_complete hw).symm.trans h
+    simp only [Option.some.injEq] at this
+    exact (congrArg Groups.zone this).symm
+  · rintro ⟨⟨d, t, z, hw, hc⟩, hz⟩
+    simp only [dateCaps, List.cons.injEq, Prod.mk.injEq, true_and] at hc
+    obtain ⟨rfl, rfl, hzc⟩ := hc
+    have hzz : g.zone.spec = z := by
+      cases z <;> cases hgz : g.zone.spec <;> simp [hgz, zoneCaps] at hzc ⊢
+      · exact ⟨hzc.1.1, hzc.1.2, hzc.2⟩
+      · exact hzc
+    rw [parseDate_complete hw, ← hzz, ← hz]
+
+/-- **boilerplate_regex**: likewise for `_search_for_date_boilerplate` and `HasBoilerplate`; with Python's `$`
+    (which also matches before a final newline) on arbitrary strings: `search_boilRe` -/
+theorem boilerplate_regex (s : List Char) :
+    hasBoilerplate (strip s) = true ↔ Search White DateTables.boilerplateRe (strip s) := by
+  rw [boilerplateRe_eq, search_boilRe_stripped (strip_last s), hasBoilerplate_iff]
+
+/-- the groups `fix_date_format` unpacks: `(date, time, zhour, zminute, zabbr) = match.groups()` -/
+theorem regex_groups (d t : List Char) :
+    (∀ sg hh mm, (group (dateCaps d t (.numeric sg hh mm)) 1, group (dateCaps d t (.numeric sg hh mm)) 2,
+        group (dateCaps d t (.numeric sg hh mm)) 3, group (dateCaps d t (.numeric sg hh mm)) 4,
+        group (dateCaps d t (.numeric sg hh mm)) 5) = (some d, some t, some (sg :: hh), some mm, none))
+    ∧ (∀ a, (group (dateCaps d t (.abbr a)) 1, group (dateCaps d t (.abbr a)) 2, group (dateCaps d t (.abbr a)) 3,
+        group (dateCaps d t (.abbr a)) 4, group (dateCaps d t (.abbr a)) 5) = (some d, some t, none, none, some a))
+    ∧ ((group (dateCaps d t .absent) 1, group (dateCaps d t .absent) 2, group (dateCaps d t .absent) 3,
+        group (dateCaps d t .absent) 4, group (dateCaps d t .absent) 5) = (some d, some t, none, none, none)) :=
+  ⟨fun _ _ _ => rfl, fun _ => rfl, rfl⟩
 
 /-! ### the calendar model is the calendar -/
 
